@@ -300,8 +300,8 @@ def extract(repo):
         if not re.search(r"\b%s\s*\(\s*output\s*,\s*outputByteLen\s*,\s*input\s*,\s*inputByteLen\s*\)\s*;" % fam, b):
             raise TranslateError("%s does not forward (output, outputByteLen, input, inputByteLen) to %s" % (fam.upper(), fam))
     d["wr"] = wr
-    # ---- the control code of the sponge (loops over byte positions, s_inc[25] bookkeeping): hand-modelled in
-    # SqiModel.Sponge and tied by correspondence; here a tripwire: the model is a model of exactly this text
+    # ---- text tripwire for sponge control code that is hand-modelled only.  Since sponge.py / spongewrap.py translate every
+    # function of the SHAKE path (keccak_inc_init, shake128, shake256 were the last ones), the accepted-text table is empty.
     import json
     golden = json.load(open(os.path.join(os.path.dirname(os.path.abspath(__file__)), "fips202_control_text.json")))
     for fn, (a, b) in golden.items():
